@@ -48,15 +48,63 @@ def c10_nontrivial(c, ms):
 CONFIG = dict(
     modules=["SigModel.Props.C10"],
     theorems=["SigModel.ShapesClient." + t for t in [
-        "C10_derefs_accounted", "C10_assertions_known"]],
+        "C10_total", "C10_invalid_no_effect", "C10_bystanders", "C10_addressed_message_delivered",
+        "C10_derefs_accounted", "C10_assertions_known", "C10_order_facts",
+        "checkValid_no_crash",
+        "C10_total_needs_dialout_guard", "C10_total_needs_fixed_label", "C10_total_needs_nil_guard",
+        "C10_total_needs_validation"]],
     generated=["ShapesClient"],
-    harness=dict(pkg="signaling", test="TestVerifC10", timeout=900),
-    no_shrink=False,
+    harness=dict(pkg="signaling", test="TestVerifC10", timeout=1500),
     stats=c10_stats,
     nontrivial=c10_nontrivial,
-    rule="",
-    trusted_base=[],
-    assumptions=[],
+    rule="a case = fresh real Hub + BackendServer + fake Nextcloud backend + a bystander client in room `vroom`, then 1-3 "
+         "sender states (no session / session / in the bystander's room / same with an empty permission list / internal / "
+         "internal in the room / internal with a dialout request pending before every message) x 1-9 frames each; a frame is "
+         "(4/5) a valid message of one of 14 families (hello v1/v2/internal/resume/odd, bye, room join/leave/federation, "
+         "message and control x 8 recipient shapes x 14 payload shapes incl. media payloads and SDPs, internal x 9, transient x 5, "
+         "unknown types) with 0-3 structure-aware mutations (member missing, null, wrong-typed or hostile value, duplicated, "
+         "type tag swapped, sub-object of another type grafted, member renamed, oversized string leaf padded to "
+         "1000..200000 bytes incl. maxMessageSize-1/+0/+1/+2, unknown members, 1-40 and 5000-11000 levels of nesting) or "
+         "(1/5) raw bytes (random, truncated or byte-flipped documents, binary frames, bracket floods, invalid UTF-8); 1 case "
+         "in 12 ends with a concurrent leave / transient-update stress of two further clients; every frame is followed by "
+         "barriers on the sender's connection and on the backend-room, room, user and session subjects of both clients, "
+         "and the hub tables are digested before and after; a case is non-trivial if some frame changed the tables or "
+         "reached the bystander; distinct = distinct op lists",
+    trusted_base=[
+        "decoders: easyjson ClientMessage.UnmarshalJSON, encoding/json (payload, auth params), net/url, pion/sdp - the "
+        "harness classifies every document with these same decoders (outside the hub) and hands the model the result",
+        "gorilla/websocket framing and read limit; net/http; prometheus client (panics on invalid label values)",
+        "the fake Nextcloud backend (accepts every user id not starting with `deny`, every room not starting with `deny`, "
+        "empty permission list for users starting with `restricted`) and the TestMCU of the repository's own tests; "
+        "the Janus / proxy media backends are not exercised",
+        "the harness' barriers and digest (zz_verif_c10_world_test.go) and the go/ast walker of tools/extract/shapesclient.go "
+        "(syntactic nil-guard analysis; values that leave a function through struct fields or atomics are not followed)",
+    ],
+    assumptions=[
+        "`every byte string` is reduced to `a decode error or a value of the decoded structure` (decoders trusted, see trusted_base)",
+        "throttling is switched off in the harness (C17), hello/anonymous/expiry timers are set to one hour; clustering "
+        "(gRPC, real NATS) and the established federation forwarding path are modelled (modelProxy) but not run",
+        "the model's predictions for the sender's own stream are exact for the direct reply and a may-set for room events; "
+        "for the bystander they are must/may sets per handler (exact for plain message/control/transient/bye/leave/join)",
+        "responses of the backend (auth/room answers with missing sub-objects) are not client input and not covered here",
+    ],
 )
 
-MANIFEST = dict(text="", note="", technique="")
+MANIFEST = dict(
+    text="Machine-checked Lean 4 theorems about a hand-written model of the client-input path (ReadPump size/frame check, "
+         "decode, CheckValid, processMessage dispatch, every handler incl. the pending-dialout response handler and federation "
+         "forwarding) that is defined over facts regenerated from the Go sources on every run: the per-type `validated => "
+         "sub-object non-nil` table of every CheckValid in api_signaling.go, the table of unguarded pointer dereferences below a "
+         "client message in every function that receives one, the order decode -> validate -> dispatch, the dispatch table, the "
+         "label of the message counter and maxMessageSize. Proved for all connection states and all frames (any size, "
+         "text/binary, undecodable or any value of the decoded structure): no crash outcome; invalid frames are answered with "
+         "one error, reach nobody and change nothing; the bystander only receives kinds the message content addresses, and an "
+         "addressed plain message is delivered. Counter-examples show each guard is needed. Tied to the code by a differential "
+         "run of the real Hub with real websocket clients (7 sender states, structure-aware hostile documents and raw bytes, "
+         "bystander and table digest, process liveness).",
+    note="Trusted: Lean kernel, extractor, harness, the JSON/URL/SDP decoders and websocket/http libraries; backend answers "
+         "are not client input. Three defects found and repaired: dialout response handler nil dereference (e72f1fa), "
+         "process death on a `type` that is not valid UTF-8 (b4fc1ba), leave vs. transient-update deadlock (d70134f, by C14).",
+    technique="Lean 4 proof (case analysis over the dispatch of a total model with explicit crash outcomes, table lemmas by "
+              "decide) + regenerated validation/dereference tables + differential correspondence against the real hub",
+)
